@@ -681,6 +681,7 @@ def main(argv):
             "erasure, str, protected wrapper, MaybeUninit -> init, thin <-> thick, transmute of handles) is between types of equal layout on the matrix. "
             "R-FREE-TYPE: both free sites build the Box from the handle's own stored pointer. R-NULL: null-checked allocation. Evaluation of an "
             "extracted expression, not execution of the crate. Not decided: what the allocator does with the layout."
+            " Round thirteen/fourteen: R-GUARD as a premise (a replacement behind with_arc_mut's transient reaches the handle on both exits); the block type may be read off an allocation helper's return type; bitwise NOT on integers is evaluated."
         ),
         rule_text="programs = (allocation site, root caller) pairs and re-typing casts; each is evaluated on every cell of the shape matrix; a disagreement is reported with a concrete (H, T, len) witness",
         trusted_base=["std's documented Layout::extend/array/pad_to_align arithmetic and the repr(C) layout algorithm (re-implemented in analysis/layout.py)", "rustc MIR def-use", "Box<T> frees with Layout::for_value of its pointee"],
